@@ -73,6 +73,14 @@ Theorem c17_reject_no_tokens : forall ia ian s, lex ia ian T s = None -> forall 
 Proof. exact (fun ia ian => reject_no_tokens ia ian T). Qed.
 Print Assumptions c17_reject_no_tokens.
 
+(* An accepted source contains no number literal whose value is not a finite 64-bit float (such a source is rejected as a
+   whole, so it has no tokens): [float_nonfinite] decides, on the literal's decimal text, whether str::parse::<f64> gives infinity. *)
+Theorem c17_accepted_literals_finite : forall ia ian s ts t, lex ia ian T s = Some ts -> In t ts -> tok_finite t = true.
+Proof. exact (fun ia ian => lex_tokens_finite ia ian T). Qed.
+Print Assumptions c17_accepted_literals_finite.
+Example c17_nonfinite_rejected : lex alpha_exec alnum_exec T [120; 32; 61; 32; 49; 101; 52; 48; 48] (* x = 1e400 *) = None.
+Proof. vm_compute. reflexivity. Qed.
+
 (* ---------------------------------------------------------------------------------------------------------------
    Re-lexing.  FULL STATEMENT (false of the faithful model -- finding F12):
 
